@@ -65,9 +65,10 @@ fn into_cond(expr: &Expr) -> Condition {
                     .is_not_null()
                     .into_condition()
             } else {
-                SeaExpr::col(SeaAlias::new(key))
-                    .ne(value.unwrap())
-                    .into_condition()
+                // a NULL column is not equal to a value either (SQL would drop the row)
+                SeaCond::any()
+                    .add(SeaExpr::col(SeaAlias::new(key)).ne(value.unwrap()))
+                    .add(SeaExpr::col(SeaAlias::new(key)).is_null())
             }
         }
         ExprOp::LT => SeaExpr::col(SeaAlias::new(key))
